@@ -391,4 +391,67 @@ theorem fair_progressH (I : GIface P core cfg S) (hc : cfg.Ok) (hs : Sim P core 
   refine ⟨s4, L4, ?_, o4.on.quiescentH (four_roundsT R1 R2 R3 R4), o4⟩
   simp only [fairRoundsT_succ, e1, e2, e3, e4, Option.bind_some, fairRoundsT]
 
+/-! ## shape-agnostic upkeep of the invariants (used for the handshake rounds) -/
+
+/-- deliveries of fresh datagrams of the peer's history keep the safety invariant and the clock
+invariant, whatever state the receiver is in -/
+theorem blockAny (hs : Sim P core cfg) (hl : LocT P S) {now : Nat} {draws : List Nat} (alt : P.Alt) (peer : End P) :
+    ∀ (sents : List (Sent P.Packet)) (e e' : End P),
+      (∀ sn ∈ sents, sn ∈ peer.out ∧ sn.nStamp = peer.nAbs ∧ e.nAbs ≤ sn.dStamp + 512) →
+      AInv cfg (absEnd P core e) (absEnd P core peer) → S now e.conn →
+      recvEndsD now draws alt e (sents.map (·.pkt)) = some e' →
+      AInv cfg (absEnd P core e') (absEnd P core peer) ∧ S now e'.conn ∧ e'.submitted = e.submitted ∧
+        e.dAbs ≤ e'.dAbs := by
+  intro sents
+  induction sents with
+  | nil =>
+    intro e e' _ h hS he
+    simp [recvEndsD] at he
+    subst he
+    exact ⟨h, hS, rfl, Nat.le_refl _⟩
+  | cons sn sents ih =>
+    intro e e' hst h hS he
+    obtain ⟨hmem, hn, hd⟩ := hst sn (by simp)
+    simp only [List.map_cons, recvEndsD, recvEndD] at he
+    cases hr : P.recv now draws e.conn sn.pkt alt with
+    | error x => rw [hr] at he; cases he
+    | ok r =>
+      rw [hr] at he
+      simp only at he
+      have h' := hs.recv now draws e peer sn alt r hmem hr h (h2_fresh (core := core) h hmem hn hd)
+      have hS' := hl.recv now draws e.conn _ alt r hr hS
+      obtain ⟨a, b, c, d⟩ := ih (e.book r []) e'
+        (fun y hy => by
+          obtain ⟨y1, y2, y3⟩ := hst y (List.mem_cons_of_mem _ hy)
+          exact ⟨y1, y2, by rw [book_nAbs]; exact y3⟩) h' hS' he
+      exact ⟨a, b, by rw [c]; simp [End.book], Nat.le_trans (book_dAbs_le' e r) d⟩
+
+/-- the tick moves are admissible whenever they return -/
+theorem admissible_ticks {w w1 : World P} (h : run w tickMoves = some w1) : admissible w tickMoves = true := by
+  simp only [tickMoves, run] at h
+  simp only [tickMoves, admissible, h1, h2, Bool.and_self, Bool.true_and]
+  cases s1 : step w (.advance resendUs) with
+  | none => rw [s1] at h; cases h
+  | some x1 =>
+    rw [s1] at h; simp only at h ⊢
+    cases s2 : step x1 (.call .a [] .tick) with
+    | none => rw [s2] at h; cases h
+    | some x2 =>
+      rw [s2] at h; simp only at h ⊢
+      cases s3 : step x2 (.call .b [] .tick) with
+      | none => rw [s3] at h; cases h
+      | some x3 =>
+        rw [s3] at h; simp only at h ⊢
+        cases s4 : step x3 (.advance sendUs) with
+        | none => rw [s4] at h; cases h
+        | some x4 =>
+          rw [s4] at h; simp only at h ⊢
+          cases s5 : step x4 (.call .a [] .tick) with
+          | none => rw [s5] at h; cases h
+          | some x5 =>
+            rw [s5] at h; simp only at h ⊢
+            cases s6 : step x5 (.call .b [] .tick) with
+            | none => rw [s6] at h; cases h
+            | some x6 => rfl
+
 end Tw.NetSim
